@@ -261,7 +261,7 @@ class CSSRuleRules(CSSRule):
 
         elif isinstance(rule, cssutils.css.CSSRuleList):
             # insert all rules
-            for i, r in enumerate(rule):
+            for i, r in enumerate(list(rule)):
                 self.insertRule(r, index + i)
             return True, True
 
